@@ -164,6 +164,28 @@ theorem C13_bzip2_sink_prefix (s : BzW) (hf : s.bw.sink.failed = false) (hfor : 
 example : ∃ s0, newBzW 9 { budget := some 5, mode := .short, forever := false } = some s0 ∧ Latched s0 :=
   ⟨_, rfl, latched_reset _ _ rfl⟩
 
+/-- non-vacuity of `C13_bzip2_failed_forever`: NewWriter(level 1) over a sink that takes 5 bytes and then
+    keeps failing with short writes; Close on the empty input fails while the 14 header+footer bytes are
+    flushed. The state reached is latched, the sink has failed, it holds a prefix ("BZh1" and one byte of
+    the end magic), OutputOffset counts exactly those bytes, and a second Close fails again. -/
+def exFailedBz : BzW :=
+  (BzW.run (BzW.reset { level := 1, rle := { cap := 0 } } { budget := some 5, mode := .short, forever := true }) [.close]).1
+
+set_option maxRecDepth 100000 in
+example : exFailedBz.bw.sink.failed = true ∧ exFailedBz.err = some (.other 7) ∧ exFailedBz.done = false ∧
+    exFailedBz.bw.sink.got = [0x42, 0x5a, 0x68, 0x31, 0x17] ∧ exFailedBz.outOff = 5 ∧
+    (exFailedBz.close).2 = some (.other 7) := by decide
+
+example : Latched exFailedBz :=
+  latched_run [.close] _ (latched_reset _ _ rfl) (by intro op h; simp at h; subst h; trivial)
+
+-- non-vacuity of `C13_bzip2_no_false_success`: the same calls over a sink that never fails end `done`
+-- with the 14-byte empty stream in the sink.
+set_option maxRecDepth 100000 in
+example : ((BzW.run (BzW.reset { level := 1, rle := { cap := 0 } } {}) [.close]).1.done = true) ∧
+    (BzW.run (BzW.reset { level := 1, rle := { cap := 0 } } {}) [.close]).1.bw.sink.got =
+      [0x42, 0x5a, 0x68, 0x31, 0x17, 0x72, 0x45, 0x38, 0x50, 0x90, 0, 0, 0, 0] := by decide
+
 end bzip2
 
 /-! ### meta.Writer (API-level model `Meta.MW`) -/
